@@ -383,6 +383,81 @@ def tstep (cfg : Cfg) (sh : Sh) (me : Tid) (th0 : Th) : Option (Sh × Th) :=
     if j < m then some (sh, th.goto (.u0 cpos m (j + 1) (rd sh.buf (cfg.idx (cpos + j)) :: acc)))
     else some (sh, { th with pending := acc.reverse }.ret { n := m, off := cpos, data := acc.reverse })
 
+
+/-! ### lock structure
+
+`lockFacts` is the model's own account of the lock structure of buffer.go: per ring
+method (index into Close, Len, ReadFrom, WriteTo, Read, Write, ReadPeek, ReadWait,
+ReadCommit, WriteWait, WriteCommit, waitForWriteSpace) the marks, lock operations
+(`1000 + 2·op + mx`, op 0 Lock 1 Unlock 2 Wait 3 Broadcast, mx 0 pcond 1 ccond),
+calls of ring methods (`1300 + k`), `defer Close` (1200) and returns (1100) in source
+order.  `Proofs.Ring.ring_lock_facts` equates it with the list regenerated from the
+source, `Proofs.Ring.lockFacts_steps` with what `tstep` does at each mark. -/
+def lockFacts : List (Nat × List Nat) := [
+  (0, [10, 11, 1000, 12, 1006, 13, 1002, 14, 1001, 15, 1007, 16, 1003, 1100]),
+  (1, [20, 21, 1100]),
+  (2, [1200, 110, 1100, 1311, 1100, 111, 1310, 1100, 1100]),
+  (3, [1200, 120, 1100, 1306, 121, 1100, 1308, 1100, 1100]),
+  (4, [60, 1301, 1100, 61, 62, 63, 64, 65, 1000, 66, 1006, 67, 1002, 1100, 68, 69, 70, 1000, 71, 1006, 72, 1002, 1100, 73, 1001, 74, 75, 76, 1003, 1100, 77, 1005, 78, 79, 1003]),
+  (5, [40, 1100, 1311, 1100, 41, 42, 43, 1001, 44, 1007, 45, 1003, 1100]),
+  (6, [1100, 1100, 80, 81, 82, 1001, 83, 84, 85, 1003, 1100, 86, 1005, 87, 88, 1003, 89, 1100, 1100, 1100]),
+  (7, [1100, 1100, 90, 91, 92, 1001, 93, 94, 95, 1003, 1100, 96, 1005, 97, 98, 1003, 99, 1100, 1100]),
+  (8, [1100, 1100, 100, 101, 102, 103, 1000, 104, 1006, 105, 1002, 1100, 1100]),
+  (9, [1311, 1100, 1100, 1100]),
+  (10, [1311, 1100, 50, 51, 1001, 52, 1007, 53, 1003, 1100]),
+  (11, [1100, 30, 1100, 31, 32, 1000, 33, 34, 35, 1002, 1100, 36, 1004, 37, 38, 1002, 1100])]
+
+/-- one program counter per mark, in the order of `lockFacts` (locals irrelevant for the lock operation performed) -/
+def markPcs : List Pc := [
+  .x10, .x11, .x12, .x13, .x14, .x15, .x16, .l20, .l21 0,
+  .r60 0, .r61 0, .r62 0 0, .r63c false 0 0 0 [], .r64 false 0 [], .r65 false 0 [], .r66 false 0 [], .r67 false 0 [],
+  .r63c true 0 0 0 [], .r64 true 0 [], .r65 true 0 [], .r66 true 0 [], .r67 true 0 [],
+  .r73 0 0, .r74 0 0, .r75 0 0, .r76 0 0, .r77 0 0, .r78 0 0, .r79 0,
+  .w40 0, .w41c 0 0 0, .w42 0 0, .w43 0, .w44 0, .w45 0,
+  .p80 false 0, .p81 false 0 0, .p82 false 0 0, .p83 false 0 0, .p84 false 0 0, .p85 false 0 0, .p86 false 0 0,
+  .p87 false 0 0, .p88 false 0 0 0, .p89c false 0 0 .ok 0 [],
+  .p80 true 0, .p81 true 0 0, .p82 true 0 0, .p83 true 0 0, .p84 true 0 0, .p85 true 0 0, .p86 true 0 0,
+  .p87 true 0 0, .p88 true 0 0 0, .p89c true 0 0 .ok 0 [],
+  .k100 0, .k101 0 0, .k102 0 0, .k103 0, .k104 0, .k105 0,
+  .c50 0 0, .c51 0, .c52 0, .c53 0,
+  .s30 0, .s31 0, .s32 0 0, .s33 0 0, .s34 0 0, .s35 0 0, .s36 0 0, .s37 0 0, .s38 0 0 0]
+
+/-- the lock operation `tstep` performs at `pc` (code as in `lockFacts`), observed on
+two probe states: both mutexes free / both held by the stepping thread -/
+def lockOpCode (pc : Pc) : Option Nat :=
+  let cfg : Cfg := { k := 0, src := fun _ => 0 }
+  let me : Tid := .k 0
+  let th : Th := { pc := pc, cur := some .close }
+  let free : Sh := { buf := #[0] }
+  let held : Sh := { buf := #[0], pL := some me, cL := some me }
+  let parked := fun (r : Option (Sh × Th)) => match r with
+    | some (_, th') => th'.pc.parkedAt.isSome
+    | none => false
+  let r0 := tstep cfg free me th
+  let r1 := tstep cfg held me th
+  let own := fun (r : Option (Sh × Th)) (m : Mx) => match r with
+    | some (sh', _) => sh'.owner m
+    | none => none
+  let note := fun (r : Option (Sh × Th)) (m : Mx) => match r with
+    | some (sh', _) => sh'.note m
+    | none => false
+  if own r0 .pL == some me then some 1000
+  else if own r0 .cL == some me then some 1001
+  else if own r1 .pL == none && r1.isSome then (if parked r1 then some 1004 else some 1002)
+  else if own r1 .cL == none && r1.isSome then (if parked r1 then some 1005 else some 1003)
+  else if note r1 .pL then some 1006
+  else if note r1 .cL then some 1007
+  else none
+
+/-- from an event list: each mark with the lock operation that directly follows it (if any) -/
+def markOps : List Nat → List (Nat × Option Nat)
+  | [] => []
+  | [m] => if m < 1000 then [(m, none)] else []
+  | m :: e :: rest =>
+    if m < 1000 then
+      (if 1000 ≤ e ∧ e < 1100 then (m, some e) else (m, none)) :: markOps (e :: rest)
+    else markOps (e :: rest)
+
 /-- the whole system -/
 structure St where
   sh : Sh
